@@ -601,7 +601,7 @@ Definition wf_item (i : item) : Prop :=
   | IForeign h name inner ename ews =>
       (exists c nm, name = c :: nm /\ is_letter c = true) /\ Forall namechar name /\
       to_hash (map lower name) = Ok h /\ to_hash (map lower ename) = Ok h /\ is_xml_hash h = true /\   (* svg math xml *)
-      (exists c r, inner = c :: r /\ (is_ws c = true \/ c = 62)) /\ xml_wf h true 0 inner = true /\
+      (exists c r, inner = c :: r /\ (is_ws c = true \/ c = 62)) /\ xml_wf (length inner) h true 0 0 inner = true /\
       Forall (fun c => is_letter c = true) ename /\ Forall (fun c => is_ws c = true) ews
   | IBogus c1 body => bogus_open c1 body /\ Forall (fun c => c <> 62) body
   | IPlain name attrs ws content =>
@@ -1033,11 +1033,11 @@ Proof.
 Qed.
 
 (* non-vacuity of the svg / math grammar with quotes and nested tags:
-   <svg a='>"</svg>' b=">'"><text x="1">5" 'pipe'</text><!-- " --><?pi '?><![CDATA["]]></g></SVG > *)
+   <svg a='>"</svg>' b=">'"><text x="1">5" 'pipe'</text><!-- "</svg>--><?pi '</svg>?><![CDATA["</svg>]]></g></SVG > *)
 Example html_wellformed_nonvacuous3 :
   let inner := [32;97;61;39;62;34;60;47;115;118;103;62;39;32;98;61;34;62;39;34;62;
                 60;116;101;120;116;32;120;61;34;49;34;62;53;34;32;39;112;105;112;101;39;60;47;116;101;120;116;62;
-                60;33;45;45;32;34;32;45;45;62;60;63;112;105;32;39;63;62;60;33;91;67;68;65;84;65;91;34;93;93;62;60;47;103;62] in
+                60;33;45;45;32;34;60;47;115;118;103;62;45;45;62;60;63;112;105;32;39;60;47;115;118;103;62;63;62;60;33;91;67;68;65;84;65;91;34;60;47;115;118;103;62;93;93;62;60;47;103;62] in
   let doc := [ IForeign html_hash_Svg [115; 118; 103] inner [83; 86; 71] [32]; IText [120] ] in
   wf_doc doc /\ length (doc_obs doc) = 2%nat /\
   exists tr, run no_tmpl 3 (new_lexer (doc_bytes doc)) = Ok tr /\
